@@ -271,6 +271,10 @@ func c02Main(r *engine.Run) {
 		if r.Thorough() {
 			lvl = 1
 		}
+		tj := TJunctionPairs(lvl)
+		if r.Parallel(len(tj), func(k int) { c02Pair(r, tj[k][0], tj[k][1], true) }) {
+			r.Bound(fmt.Sprintf("T-junction family: %d pairs (a vertex of B on the interior of a long edge of A at every integer position)", len(tj)))
+		}
 		cp := ConcurrentPairs(lvl)
 		if r.Parallel(len(cp), func(k int) { c02Pair(r, cp[k][0], cp[k][1], k%4 == 0) }) {
 			r.Bound(fmt.Sprintf("concurrent family: %d pairs with three edge interiors through one non-vertex lattice point", len(cp)))
